@@ -104,6 +104,12 @@ impl<S: BlobStore> HuffmanBlobStore<S> {
         if self.training_data.is_empty() {
             return Err(ZiporaError::invalid_data("No training data provided"));
         }
+        if self.tree.is_some() && self.stats.compressions > 0 {
+            // stored records were encoded with the current tree and are decoded with it
+            return Err(ZiporaError::invalid_operation(
+                "Huffman tree already in use by stored records",
+            ));
+        }
 
         let tree = HuffmanTree::from_data(&self.training_data)?;
         let encoder = HuffmanEncoder::new(&self.training_data)?;
@@ -160,28 +166,64 @@ impl<S: BlobStore> HuffmanBlobStore<S> {
     }
 }
 
+/// Stored form of a record in the inner store: one tag byte, then either the raw
+/// bytes (`TAG_RAW`) or the original length (u32 LE) followed by the Huffman bit stream.
+const TAG_RAW: u8 = 0;
+const TAG_HUFFMAN: u8 = 1;
+
+impl<S: BlobStore> HuffmanBlobStore<S> {
+    /// Invert the stored form produced by `put`
+    fn decode_stored(&self, stored: &[u8]) -> Result<Vec<u8>> {
+        match stored.split_first() {
+            Some((&TAG_RAW, rest)) => Ok(rest.to_vec()),
+            Some((&TAG_HUFFMAN, rest)) if rest.len() >= 4 => {
+                let original_length =
+                    u32::from_le_bytes([rest[0], rest[1], rest[2], rest[3]]) as usize;
+                let tree = self
+                    .tree
+                    .as_ref()
+                    .ok_or_else(|| ZiporaError::invalid_data("Huffman tree not built"))?;
+                HuffmanDecoder::new(tree.clone()).decode(&rest[4..], original_length)
+            }
+            _ => Err(ZiporaError::invalid_data("corrupt Huffman blob header")),
+        }
+    }
+
+    /// Original length of a stored record without decoding it
+    fn stored_len(stored: &[u8]) -> Result<usize> {
+        match stored.split_first() {
+            Some((&TAG_RAW, rest)) => Ok(rest.len()),
+            Some((&TAG_HUFFMAN, rest)) if rest.len() >= 4 => {
+                Ok(u32::from_le_bytes([rest[0], rest[1], rest[2], rest[3]]) as usize)
+            }
+            _ => Err(ZiporaError::invalid_data("corrupt Huffman blob header")),
+        }
+    }
+}
+
 impl<S: BlobStore> BlobStore for HuffmanBlobStore<S> {
     fn get(&self, id: crate::RecordId) -> Result<Vec<u8>> {
-        // For now, delegate to inner store (would need metadata for decompression)
-        self.inner.get(id)
+        let stored = self.inner.get(id)?;
+        self.decode_stored(&stored)
     }
 
     fn put(&mut self, data: &[u8]) -> Result<crate::RecordId> {
-        if self.encoder.is_some() && !data.is_empty() {
-            match self.compress_data(data) {
-                Ok(compressed) => {
-                    let id = self.inner.put(&compressed)?;
-                    self.stats.blob_stats.put_count += 1;
-                    Ok(id)
-                }
-                Err(_) => {
-                    // Fall back to uncompressed
-                    self.inner.put(data)
-                }
+        if self.encoder.is_some() && !data.is_empty() && data.len() <= u32::MAX as usize {
+            if let Ok(compressed) = self.compress_data(data) {
+                let mut stored = Vec::with_capacity(compressed.len() + 5);
+                stored.push(TAG_HUFFMAN);
+                stored.extend_from_slice(&(data.len() as u32).to_le_bytes());
+                stored.extend_from_slice(&compressed);
+                let id = self.inner.put(&stored)?;
+                self.stats.blob_stats.put_count += 1;
+                return Ok(id);
             }
-        } else {
-            self.inner.put(data)
+            // Fall back to uncompressed
         }
+        let mut stored = Vec::with_capacity(data.len() + 1);
+        stored.push(TAG_RAW);
+        stored.extend_from_slice(data);
+        self.inner.put(&stored)
     }
 
     fn remove(&mut self, id: crate::RecordId) -> Result<()> {
@@ -193,7 +235,11 @@ impl<S: BlobStore> BlobStore for HuffmanBlobStore<S> {
     }
 
     fn size(&self, id: crate::RecordId) -> Result<Option<usize>> {
-        self.inner.size(id)
+        // Return the original (decoded) size
+        match self.inner.get(id) {
+            Ok(stored) => Ok(Some(Self::stored_len(&stored)?)),
+            Err(_) => Ok(None),
+        }
     }
 
     fn len(&self) -> usize {
